@@ -448,6 +448,11 @@ class World:
                 return rng.choice([True, False, 0, 1, "x"])
             if n == "ID":
                 return rng.choice(["id", 7, ""])
+            if self.nonfinite and rng.random() < 0.6:
+                # non-finite floats at a custom-scalar position, bare and nested in lists / dicts
+                self.injected_nonfinite = True
+                nan, inf = float("nan"), float("inf")
+                return rng.choice([nan, inf, -inf, [1, nan], {"k": [1, {"z": inf}]}, {"a": -inf, "b": 2.5}, [[nan]]])
             # custom scalar (identity serialiser): odd but JSON values, incl. None
             return rng.choice([1, "c", {"k": [1, {"z": None}]}, [1, [2]], None, 10 ** 20, "", {}, 0.25]) if self.odd else "c"
         if isinstance(t, ObjectType):
